@@ -22,6 +22,7 @@ import (
 	"math"
 	"sort"
 	"strings"
+	"sync"
 	"testing"
 	"time"
 
@@ -68,6 +69,10 @@ func runC17(c *vh.Case) {
 	}
 	server := mcp.NewServer(&mcp.Implementation{Name: "s", Version: "1"}, &mcp.ServerOptions{PageSize: spec.PageSize, HasTools: true, HasPrompts: true, HasResources: true})
 	registered := map[string]bool{}
+	// every registration of an id carries its own description ("gen N"): a listing must show the definition that is
+	// registered when the page is fetched, not one that a Replace has since superseded
+	curDesc := map[string]string{}
+	gen := 0
 	idOf := func(name string) string {
 		switch spec.Kind {
 		case "resources":
@@ -78,21 +83,24 @@ func runC17(c *vh.Case) {
 		return name
 	}
 	add := func(name string) {
+		gen++
+		desc := fmt.Sprintf("gen %d", gen)
+		curDesc[idOf(name)] = desc
 		switch spec.Kind {
 		case "tools":
-			server.AddTool(&mcp.Tool{Name: name, InputSchema: json.RawMessage(`{"type":"object"}`)}, func(context.Context, *mcp.CallToolRequest) (*mcp.CallToolResult, error) {
+			server.AddTool(&mcp.Tool{Name: name, Description: desc, InputSchema: json.RawMessage(`{"type":"object"}`)}, func(context.Context, *mcp.CallToolRequest) (*mcp.CallToolResult, error) {
 				return &mcp.CallToolResult{}, nil
 			})
 		case "prompts":
-			server.AddPrompt(&mcp.Prompt{Name: name}, func(context.Context, *mcp.GetPromptRequest) (*mcp.GetPromptResult, error) {
+			server.AddPrompt(&mcp.Prompt{Name: name, Description: desc}, func(context.Context, *mcp.GetPromptRequest) (*mcp.GetPromptResult, error) {
 				return &mcp.GetPromptResult{}, nil
 			})
 		case "resources":
-			server.AddResource(&mcp.Resource{URI: idOf(name), Name: name}, func(context.Context, *mcp.ReadResourceRequest) (*mcp.ReadResourceResult, error) {
+			server.AddResource(&mcp.Resource{URI: idOf(name), Name: name, Description: desc}, func(context.Context, *mcp.ReadResourceRequest) (*mcp.ReadResourceResult, error) {
 				return &mcp.ReadResourceResult{}, nil
 			})
 		case "templates":
-			server.AddResourceTemplate(&mcp.ResourceTemplate{URITemplate: idOf(name), Name: name}, func(context.Context, *mcp.ReadResourceRequest) (*mcp.ReadResourceResult, error) {
+			server.AddResourceTemplate(&mcp.ResourceTemplate{URITemplate: idOf(name), Name: name, Description: desc}, func(context.Context, *mcp.ReadResourceRequest) (*mcp.ReadResourceResult, error) {
 				return &mcp.ReadResourceResult{}, nil
 			})
 		}
@@ -136,6 +144,39 @@ func runC17(c *vh.Case) {
 		spec.Initial = append(spec.Initial, n)
 	}
 	pool := names[n0:]
+	// A page that arrives empty but with a cursor (a filtering proxy or middleware in front of the list; for tools also
+	// the client's own dropping of definitions it cannot use): armed by the at-rest part below for one cursor.
+	var blankMu sync.Mutex
+	blankArmed, blankCursor, blanked := false, "", 0
+	server.AddReceivingMiddleware(func(next mcp.MethodHandler) mcp.MethodHandler {
+		return func(ctx context.Context, method string, req mcp.Request) (mcp.Result, error) {
+			res, err := next(ctx, method, req)
+			blankMu.Lock()
+			defer blankMu.Unlock()
+			if err != nil || !blankArmed {
+				return res, err
+			}
+			switch v := res.(type) {
+			case *mcp.ListToolsResult:
+				if req.GetParams().(*mcp.ListToolsParams).Cursor == blankCursor && v.NextCursor != "" {
+					v.Tools, blanked = []*mcp.Tool{}, blanked+1
+				}
+			case *mcp.ListPromptsResult:
+				if req.GetParams().(*mcp.ListPromptsParams).Cursor == blankCursor && v.NextCursor != "" {
+					v.Prompts, blanked = []*mcp.Prompt{}, blanked+1
+				}
+			case *mcp.ListResourcesResult:
+				if req.GetParams().(*mcp.ListResourcesParams).Cursor == blankCursor && v.NextCursor != "" {
+					v.Resources, blanked = []*mcp.Resource{}, blanked+1
+				}
+			case *mcp.ListResourceTemplatesResult:
+				if req.GetParams().(*mcp.ListResourceTemplatesParams).Cursor == blankCursor && v.NextCursor != "" {
+					v.ResourceTemplates, blanked = []*mcp.ResourceTemplate{}, blanked+1
+				}
+			}
+			return res, err
+		}
+	})
 	client := mcp.NewClient(&mcp.Implementation{Name: "c", Version: "1"}, nil)
 	pair, err := vhm.Connect(ctx, vhm.PairOpts{Kind: "mem", Server: server, Client: client, ClientVersion: spec.Version})
 	if err != nil {
@@ -151,6 +192,11 @@ func runC17(c *vh.Case) {
 	}()
 
 	// list fetches one page; returns ids, next cursor
+	seenDef := func(id, desc string) {
+		if registered[id] && desc != curDesc[id] && !c.Violated() {
+			c.Violate("stale-definition-listed", "%s %q is listed with description %q, but the definition registered at the time of the fetch is %q (steps %v)", spec.Kind, id, desc, curDesc[id], spec.Steps)
+		}
+	}
 	list := func(cursor string) ([]string, string, error) {
 		switch spec.Kind {
 		case "tools":
@@ -161,6 +207,7 @@ func runC17(c *vh.Case) {
 			var ids []string
 			for _, t := range res.Tools {
 				ids = append(ids, t.Name)
+				seenDef(t.Name, t.Description)
 			}
 			return ids, res.NextCursor, nil
 		case "prompts":
@@ -171,6 +218,7 @@ func runC17(c *vh.Case) {
 			var ids []string
 			for _, t := range res.Prompts {
 				ids = append(ids, t.Name)
+				seenDef(t.Name, t.Description)
 			}
 			return ids, res.NextCursor, nil
 		case "resources":
@@ -181,6 +229,7 @@ func runC17(c *vh.Case) {
 			var ids []string
 			for _, t := range res.Resources {
 				ids = append(ids, t.URI)
+				seenDef(t.URI, t.Description)
 			}
 			return ids, res.NextCursor, nil
 		default:
@@ -191,6 +240,7 @@ func runC17(c *vh.Case) {
 			var ids []string
 			for _, t := range res.ResourceTemplates {
 				ids = append(ids, t.URITemplate)
+				seenDef(t.URITemplate, t.Description)
 			}
 			return ids, res.NextCursor, nil
 		}
@@ -243,7 +293,21 @@ func runC17(c *vh.Case) {
 	iterate := func(cursor string) ([]string, error) { return iterateCtx(ctx, cursor, nil) }
 	var issued []string
 	badCursor := func() (string, bool) { // cursor, clearly malformed?
-		switch x := r.Intn(9); {
+		switch x := r.Intn(11); {
+		case x >= 9:
+			// length-prefix attacks: a leading tag byte, a ten-byte varint of 2^63 or more, a short tail (a decoder
+			// that trusts a declared length must not index with it)
+			b := []byte{[]byte{0, 1, 2, 3, 0x7f, 0x80, 0xff}[r.Intn(7)]}
+			if r.Bool() {
+				b = append(b, 0xff, 0xff, 0xff, 0xff, 0xff, 0xff, 0xff, 0xff, 0xff, 0x01)
+			} else {
+				b = append(b, 0x80, 0x80, 0x80, 0x80, 0x80, 0x80, 0x80, 0x80, 0x80, 0x01)
+			}
+			for k := r.Intn(4); k > 0; k-- {
+				b = append(b, byte(r.Intn(256)))
+			}
+			var ref struct{ LastUID string }
+			return base64.URLEncoding.EncodeToString(b), gob.NewDecoder(bytes.NewReader(b)).Decode(&ref) != nil
 		case x == 0:
 			return "not base64 !!", true
 		case x == 1:
@@ -488,6 +552,40 @@ func runC17(c *vh.Case) {
 			return
 		}
 		c.Count("iterators_cancelled_mid_traversal", 1)
+	}
+	// a page that comes back empty but with a cursor is not the end: manual paging goes on, so must the iterator
+	if len(cursors2) > 0 {
+		blankMu.Lock()
+		blankArmed, blankCursor = true, append([]string{""}, cursors2[:len(cursors2)-1]...)[r.Intn(len(cursors2))]
+		blankMu.Unlock()
+		var manual []string
+		cc := blankCursor
+		for p := 0; p < 80; p++ {
+			ids, next, err := list(cc)
+			if err != nil {
+				c.Violate("list-failed", "%s list failed: %v", spec.Kind, err)
+				return
+			}
+			manual = append(manual, ids...)
+			if next == "" {
+				break
+			}
+			cc = next
+		}
+		it, err := iterate(blankCursor)
+		blankMu.Lock()
+		blankArmed = false
+		nBlanked := blanked
+		blankMu.Unlock()
+		if nBlanked < 2 {
+			c.Inconclusive("the page meant to arrive empty was fetched %d times, not by both traversals", nBlanked)
+			return
+		}
+		if err != nil || strings.Join(it, "\x00") != strings.Join(manual, "\x00") {
+			c.Violate("iterator-differs-from-manual-paging", "with the page behind cursor %q arriving empty (its cursor intact), the client iterator yielded %v (err %v), manual paging %v", trunc80(blankCursor), it, err, manual)
+			return
+		}
+		c.Count("empty_pages_with_cursor", 1)
 	}
 	// iterators started from every cursor issued at rest continue exactly from there
 	for i, cu := range cursors2 {
